@@ -28,6 +28,12 @@ def pick(rng: random.Random, lo: int, hi: int) -> int:
 
 
 def name(rng: random.Random) -> str:
+    if rng.random() < 0.15:
+        # a long name in which multi-byte characters start at every alignment: k ASCII bytes, then 2-, 3- and 4-byte characters
+        # (anything that cuts, pads or measures a name by bytes meets a character boundary problem on one of these)
+        k = rng.choice([0, 1, 2, 3, 22, 23, 24, 25, 31, 62, 63, rng.randrange(0, 70)])
+        tail = "".join(rng.choice(["\u00e4", "\u00df", "\u65e5", "\u20ac", "\U0001f600", "\u0416"]) for _ in range(rng.choice([2, 9, 30, 90])))
+        return "n" * k + tail
     return rng.choice(NAMES)
 
 
@@ -265,7 +271,8 @@ def random_choices(rng: random.Random) -> dict:
             "tails": rng.choice([0.0, 0.3, 0.8]), "trailer": bytes(rng.randrange(256) for _ in range(rng.choice([0, 1, 17]))),
             "unused": rng.random() < 0.5, "pixel_ratio": rng.choice([(1, 1), (0, 0), (0, 7), (3, 0)]),
             "zlevels": rng.choice([[6], [0], [1], [9], [0, 1, 6, 9], ["stored"]]), "cel_storage": rng.choice([None, "raw", "zlib"]),
-            "shuffle_cels": rng.random() < 0.5, "profile": rng.choice([None, 0, 1]), "extra_old_palette": rng.random() < 0.3}
+            "shuffle_cels": rng.random() < 0.5, "profile": rng.choice([None, 0, 1]), "extra_old_palette": rng.random() < 0.3,
+            "ext_late": rng.choice([None, None, "after", "between"])}
 
 
 def ud_chunk(u: dict) -> ase.UserDataChunk:
@@ -344,9 +351,14 @@ def build(s: dict, ch: Optional[dict] = None, rng: Optional[random.Random] = Non
                     chunks.append(oc)
                 else:
                     chunks.insert(len(chunks) - 1, oc)
-            if s["ext_files"]:
-                chunks.append(ase.ExternalFilesChunk(entries=list(s["ext_files"]), reserved=junk(8), entry_reserved=junk(8)))
-            for t in s["tilesets"]:
+            ext_chunk = ase.ExternalFilesChunk(entries=list(s["ext_files"]), reserved=junk(8), entry_reserved=junk(8)) if s["ext_files"] else None
+            # the external-files chunk normally precedes the tilesets that refer to it; nothing requires that ("ext_late": after them)
+            if ext_chunk is not None and not ch.get("ext_late"):
+                chunks.append(ext_chunk)
+            for ti_, t in enumerate(s["tilesets"]):
+                if ext_chunk is not None and ch.get("ext_late") == "between" and ti_ == len(s["tilesets"]) // 2 and ti_ > 0:
+                    chunks.append(ext_chunk)
+                    ext_chunk = None
                 fl = 2 | (4 if t["empty0"] else 0) | (1 if t["ext"] else 0)
                 if ch["unused"]:
                     fl |= rng.choice([0, 8, 0xFFFFFFF8])
@@ -354,6 +366,8 @@ def build(s: dict, ch: Optional[dict] = None, rng: Optional[random.Random] = Non
                                                base_index=t["base"], name=t["name"], ext=t["ext"], pixels=pix_bytes(depth, t["pixels"]),
                                                zlevel=zl(), reserved=junk(14),
                                                compressed_len_override=rng.randrange(2 ** 32) if ch["unused"] else None))
+            if ext_chunk is not None and ch.get("ext_late"):
+                chunks.append(ext_chunk)
             for lay in s["layers"]:
                 fl = lay["flags"] | (rng.choice([0, 0x80, 0xFF80]) if ch["unused"] else 0)
                 chunks.append(ase.LayerChunk(flags=fl, ltype=lay["ltype"], level=lay["level"], blend=lay["blend"],
